@@ -176,7 +176,7 @@ let reject_to_string (r : reject) = match r with
 let () =
   let plat = ref x86_64 in
   let masks = ref std_masks in
-  let lineno = ref 0 and cases = ref 0 and bad = ref 0 in
+  let lineno = ref 0 and cases = ref 0 and bad = ref 0 and layoutdiff = ref 0 in
   (try
      while true do
        let line = input_line stdin in
@@ -219,6 +219,7 @@ let () =
              | "B" ->
                incr cases;
                let c = parse_bcase t in
+               if not (bcase_layout_ok !plat c) then incr layoutdiff;
                if not (bcase_ok !plat c) then begin
                  incr bad;
                  let p = match bcase_predict !plat c with
@@ -234,4 +235,4 @@ let () =
            | Failure m -> incr bad; Printf.printf "BAD %d parse failure: %s\n" !lineno m))
      done
    with End_of_file -> ());
-  Printf.printf "DONE %d %d\n" !cases !bad
+  Printf.printf "DONE %d %d %d\n" !cases !bad !layoutdiff
